@@ -68,11 +68,11 @@ PROPS = {
         explanation="Sequential parts: Send's lookup/event construction with graph.process replaced by a recording stub; linkNodes for all lengths 0..5; RegisterPipeline builds the list from the currently registered nodes (C05 harness); graph.process/doProcess executed with cooperative scheduling on one schedule for all outcome vectors (order, at-most-once, exact event hand-over). All-schedule reasoning: see EO jobs.",
         jobs=[dict(harness=BROKER_H, entries=r"^H_C01_Send$", params=dict(quick=dict(K=2, L=2), thorough=dict(K=3, L=3)), shards=dict(quick=1, thorough=4),
                    overrides=["(*github.com/hashicorp/eventlogger.graph).process=verifStubProcess"]),
-              dict(harness=BROKER_H, entries=r"^H_C01_linkNodes$|^H_C01_shared_nodes$", params=dict(quick=dict(LL=5), thorough=dict(LL=5))),
+              dict(harness=BROKER_H, entries=r"^H_C01_linkNodes$|^H_C01_shared_nodes$|^H_C01_two_sends$", params=dict(quick=dict(LL=5), thorough=dict(LL=5))),
               # which node objects a registered pipeline traverses: the list RegisterPipeline builds from any registry (inductive step)
               dict(harness=BROKER_H, entries=r"^H_C05_RegisterPipeline$|^H_C07_pipeline_other_type$", params=dict(quick=dict(K=2, L=2), thorough=dict(K=3, L=3)), shards=dict(quick=16, thorough=16, H_C07_pipeline_other_type=8)),
               dict(harness=BROKER_H, entries=r"^H_C01_process_seq$", params=dict(quick=dict(P=2, N=2), thorough=dict(P=3, N=3)), shards=dict(quick=4, thorough=16))],
-        must_reach=["C01.send.known", "C01.send.unknown", "C01.link.ok", "C01.process.end", "C05.register.ok", "C01.shared.end"],
+        must_reach=["C01.send.known", "C01.send.unknown", "C01.link.ok", "C01.process.end", "C05.register.ok", "C01.shared.end", "C01.two-sends.end"],
         bounds=dict(quick="P<=2 pipelines x 2 nodes; list length<=5", thorough="P<=3 x 2..3 nodes"),
         trusted_base=COMMON_TRUST,
     ),
